@@ -1,6 +1,6 @@
 import logging
 from functools import wraps
-from threading import Lock
+from threading import RLock
 from contextlib import contextmanager
 
 from .logwrap import LogWrapper
@@ -24,7 +24,9 @@ def executor_loop(fn):
 
 class ShutdownHelper(object):
     def __init__(self):
-        self._lock = Lock()
+        # Re-entrant: a callable running synchronously inside submit() (e.g. on
+        # SyncExecutor) may submit to, or shut down, the same executor.
+        self._lock = RLock()
         self.is_shutdown = False
 
     @contextmanager
